@@ -307,6 +307,24 @@ def fold_bool(c):
         names = [x[1].split(".")[-1] for x in tys if x[0] == "sym"]
         if len(names) == len(tys):
             return ("bool", "int" in names or "float" in names)
+    if h == "call" and c[1] == "isinstance" and len(c) == 4 and c[2][0] == "pyobj":
+        # ('pyobj', 'datetime.datetime', id): an instance of a named stdlib class
+        tys = c[3][1:] if c[3][0] == "tuple" else (c[3],)
+        names = []
+        for x in tys:
+            if x[0] == "sym":
+                names.append(x[1].split(".")[-1] if not x[1].startswith("datetime") else x[1])
+            elif x[0] == "attr" and x[1][0] == "sym":
+                names.append("%s.%s" % (x[1][1], x[2]))
+            else:
+                return c
+        mro = {"datetime.datetime": {"datetime.datetime", "datetime.date"}, "datetime.date": {"datetime.date"}}.get(c[2][1], {c[2][1]})
+        return ("bool", bool(mro & set(names)))
+    if h == "call" and c[1] == "isinstance" and len(c) == 4 and c[2][0] in ("tuple", "list", "str"):
+        tys = c[3][1:] if c[3][0] == "tuple" else (c[3],)
+        names = [x[1].split(".")[-1] for x in tys if x[0] == "sym"]
+        if len(names) == len(tys):
+            return ("bool", c[2][0] in names)
     if h == "call" and c[1] == "isinstance" and len(c) == 4 and c[2][0] in ("angle", "epoch"):
         kind = {"angle": "Angle", "epoch": "Epoch"}[c[2][0]]
         tys = c[3][1:] if c[3][0] == "tuple" else (c[3],)
@@ -739,7 +757,13 @@ def kw(node, name):
 
 def ev_call(ctx, node, env):
     f = node.func
-    args = [ev(ctx, a, env) for a in node.args]
+    args = []
+    for a in node.args:
+        v = ev(ctx, a, env)
+        if isinstance(a, ast.Starred) and v[0] == "call" and v[1] == "*" and v[2][0] in ("tuple", "list"):
+            args.extend(v[2][1:])          # f(*literal_tuple)
+        else:
+            args.append(v)
     kws = {k.arg: ev(ctx, k.value, env) for k in node.keywords if k.arg}
     star_kw = [ev(ctx, k.value, env) for k in node.keywords if k.arg is None]
     # ---- plain names
@@ -779,6 +803,8 @@ def ev_call(ctx, node, env):
             return T.call("int", numval(args[0]))
         if name == "round":
             return T.call("round", *[numval(a) for a in args])
+        if name == "len" and len(args) == 1 and args[0][0] in ("tuple", "list"):
+            return T.num(len(args[0]) - 1)
         if name in BUILTINS or name in MATH_FUNCS:
             return T.call(name, *args)
         # module function / imported function
